@@ -296,6 +296,24 @@ def gen(rng, tier, idx):
         ds = rng.sample(ids, min(n, len(ids)))
         lim = rng.choice(["none", "none", 0, 1, 2, 3, 50, -1, -2])
         rev = rng.randrange(2)
+        if rng.random() < 0.3:
+            # a short page out of a big result: >= 32 x limit hits (n-best selection instead of a full sort is
+            # worth it there), few distinct scores, so that the limit-th place is shared (a tie at the cut)
+            lim = rng.choice([1, 1, 2, 2, 3, 5])
+            n = lim * rng.choice([32, 32, 33, 40, 64]) + rng.choice([0, 0, 1, -1])
+            ds = rng.sample(ids, min(len(ids), 3)) + rng.sample(range(1000, 1000 + 3 * n), n)
+            ds = ds[:n]
+            pool = rng.choice([[0.5], [0.25, 0.5], [0.125, 0.25, 0.5, 0.75, 1.0], [0.5, 1.0, 1.0, 1.0]])
+            vals = [rng.choice(pool) for _ in ds]
+            if rng.random() < 0.3:
+                # exactly lim-1 clear winners / losers, everything else tied
+                for j in range(lim - 1):
+                    vals[rng.randrange(len(vals))] = 2.0 if not rev else 0.0625
+            c = ["sort", rev, lim]
+            for d, v in zip(ds, vals):
+                c += [d, v]
+            cmds.append(c)
+            return
         if rng.random() < 0.75:
             vals = [rng.choice([0.125, 0.25, 0.5, 0.5, 1.0, 0.75]) for _ in ds]      # heavy ties
             c = ["sort", rev, lim]
@@ -347,9 +365,13 @@ def gen(rng, tier, idx):
             repeated_reads()
     for _ in range(rng.randrange(0, 3)):
         sort_cmds()
-    cfg = [["cfg", "kind", kind], ["cfg", "impl", "text"], ["cfg", "fam", fam]]
+    # K1 / B (the documented BM25 free parameters) overridden on a subclass / on the instance handed to
+    # TextIndex(index=...): pure-Python loop (the compiled one keeps the constants of okascore.c)
+    tuned = base.gen_tuning(rng, 0.3) if kind == "okapi" else []
+    cfg = [["cfg", "kind", kind], ["cfg", "impl", "textpy" if tuned else "text"], ["cfg", "fam", fam]]
     if cutoff:
         cfg.append(["cfg", "cutoff", cutoff])
+    cfg += tuned
     return {"session": "score", "cfg": cfg, "cmds": cmds}
 
 
@@ -364,7 +386,14 @@ def impl_run(hyp, case):
     cfg = cfgdict(case)
     fam = BTrees.family32 if cfg["fam"] == 32 else BTrees.family64
     lex = base.StubLexicon()
-    inner = CosineIndex(lex, family=fam) if cfg["kind"] == "cosine" else okapiindex.OkapiIndex(lex, family=fam)
+    if cfg["kind"] == "cosine":
+        inner = CosineIndex(lex, family=fam)
+    elif cfg["impl"] == "textpy":
+        inner = base.tuned_index(cfg, base._PURE.OkapiIndex, lex, fam)
+    else:
+        if "k1" in cfg or "b" in cfg:
+            raise core.Infra("K1 / B overrides are only compared on the pure-Python loop")
+        inner = okapiindex.OkapiIndex(lex, family=fam)
     if cfg.get("cutoff"):
         inner.DICT_CUTOFF = int(cfg["cutoff"])
     ti = TextIndex("text", lexicon=lex, index=inner, family=fam)
@@ -468,6 +497,10 @@ def nontrivial(case, outs):
 def features(case, outs):
     cfg = cfgdict(case)
     f = ["kind:" + cfg["kind"], "fam:%s" % cfg["fam"], "cutoff:%s" % (cfg.get("cutoff") or "default")]
+    if cfg.get("override"):
+        f += ["tuned:any", "tuned:" + cfg["override"],
+              "tuned:K1=%s,B=%s" % (base.unbits(cfg["k1"]) if "k1" in cfg else "default",
+                                    base.unbits(cfg["b"]) if "b" in cfg else "default")]
     cutoff = int(cfg.get("cutoff") or 10)
     read = {}
     for (i, c, table, terms, globs), o in zip(base.replay_tables(case), outs):
@@ -503,6 +536,12 @@ def features(case, outs):
             elif op == "apply" and o.startswith("{"):
                 vals = [float(t.split(":")[1]) for t in o[1:-1].split()]
                 f.append("apply:scored")
+                if cfg.get("override"):
+                    f.append("tuned:apply-scored")
+                    if "k1" in cfg:
+                        f.append("tuned:apply-scored-with-K1-overridden")
+                        if base.unbits(cfg["k1"]) > 1.2 and any(v > 2.2 / (1 + base.unbits(cfg["k1"])) for v in vals):
+                            f.append("tuned:K1>1.2-and-score>2.2/(1+K1)")
                 if any(v > 0.999999 for v in vals):
                     f.append("apply:score==1")
                 if any(v > 1 + 1e-6 for v in vals):
@@ -517,6 +556,11 @@ def features(case, outs):
                 vals = [c[i + 1] for i in range(3, len(c), 2)]
                 if len(set(vals)) < len(vals):
                     f.append("sort:ties")
+                if isinstance(c[2], int) and c[2] > 0 and len(vals) >= 32 * c[2]:
+                    f.append("sort:result>=32xlimit")
+                    sv = sorted(vals, reverse=not c[1])
+                    if len(sv) > c[2] and sv[c[2] - 1] == sv[c[2]]:
+                        f.append("sort:result>=32xlimit-tie-at-the-cut")
                 if o == "same":
                     f.append("sort:empty-returned-unchanged")
     for k in sorted(set(f)):
